@@ -97,27 +97,36 @@ def _scaled(v, L):
     return r, bool(abs(s - r) < 1e-6 * max(1.0, abs(s)))
 
 
-def record_fit(params, X, Kmat=None, variant="compiled", queries=None):
+def record_fit(params, X, Kmat=None, variant="compiled", queries=None, scale=1.0, model=None):
     """Fit a real Kauri on integer data X (n x d) with integer kernel (linear if Kmat is None, else precomputed) and
-    return (events, model).  params uses the constructor's names."""
+    return (events, model).  params uses the constructor's names.
+    scale != 1: the kernel handed to the estimator is the integer kernel times `scale` (always as a precomputed matrix), and
+    every logged gain / score is divided by it again - the tree must not depend on the unit the kernel is expressed in.
+    model: an already used Kauri object to be re-parameterised and refitted (state left by earlier fits must not matter)."""
     from gemclus.tree import Kauri
     mod = dict(build.variants())[variant]
     X = np.asarray(X, dtype=np.float64)
     n, d = X.shape
     L = lcm_to(n)
+    if scale != 1.0 and Kmat is None:
+        Kmat = X @ X.T
     Kint = (X @ X.T) if Kmat is None else np.asarray(Kmat, dtype=np.float64)
     assert np.all(Kint == np.round(Kint)) and np.all(X == np.round(X))
     raw = dict(kmax=params.get("max_clusters", 3), maxdepth=params.get("max_depth") or 0,
                minsplit=params.get("min_samples_split", 2), minleaf=params.get("min_samples_leaf", 1),
                maxfeat=params.get("max_features") or 0, maxleaves=params.get("max_leaves") or 0)
     events = [dict(e="setup", X=X.astype(int).tolist(), K=Kint.astype(int).tolist(), par=raw)]
-    model = Kauri(kernel="linear" if Kmat is None else "precomputed", **params)
+    if model is None:
+        model = Kauri(kernel="linear" if Kmat is None else "precomputed", **params)
+    else:
+        model.set_params(kernel="linear" if Kmat is None else "precomputed", **params)
+    Kgiven = None if Kmat is None else Kint * scale
     with build.kauri_with(mod) as kk:
         real = kk.find_best_split
 
         def spy(kernel, Xa, leaves, Y, Z, n_clusters, K_max, n_leaves, min_leaf, feats):
             s = real(kernel, Xa, leaves, Y, Z, n_clusters, K_max, n_leaves, min_leaf, feats)
-            g, ok = _scaled(float(s.gain), L)
+            g, ok = _scaled(float(s.gain) / scale, L)
             th = float(s.threshold)
             events.append(dict(e="step", expl=[int(v) for v in leaves], fsub=sorted(int(f) + 1 for f in feats),
                                nC=int(n_clusters), nL=int(n_leaves), kmax=int(K_max), minleaf=int(min_leaf),
@@ -126,7 +135,7 @@ def record_fit(params, X, Kmat=None, variant="compiled", queries=None):
             return s
         kk.find_best_split = spy
         try:
-            model.fit(X, None if Kmat is None else Kint)
+            model.fit(X, Kgiven)
         finally:
             kk.find_best_split = real
         t = model.tree_
@@ -136,10 +145,25 @@ def record_fit(params, X, Kmat=None, variant="compiled", queries=None):
             if len(pts) > 40:
                 pts = pts[::max(1, len(pts) // 40)]
             queries = [list(p) for p in pts]
-        pred = model.predict(np.asarray(queries, dtype=np.float64)) if queries else []
+        # points just above every threshold of the tree: for the (integer-threshold) specification they are equivalent to the
+        # next integer, the real tree is asked at the neighbouring float and a hair above it
+        qreal = [list(map(float, q)) for q in queries]
+        for f_, th_ in zip(t.features, t.thresholds):
+            if f_ is None:
+                continue
+            for eps_ in (np.nextafter(float(th_), np.inf) - float(th_), 1e-9 * max(1.0, abs(float(th_))), 1e-6 * max(1.0, abs(float(th_)))):
+                base = [float(v) for v in X[0]]
+                for other in (X[0], X[-1]):
+                    pt = [float(v) for v in other]
+                    pt[int(f_)] = float(th_) + eps_
+                    qreal.append(pt)
+                    ipt = [int(v) for v in other]
+                    ipt[int(f_)] = int(round(float(th_))) + 1
+                    queries = queries + [ipt]
+        pred = model.predict(np.asarray(qreal, dtype=np.float64)) if qreal else []
         train_pred = model.predict(X)
-        sc, scok = _scaled(float(model.score(X, None if Kmat is None else Kint)), L)
-        gains = [_scaled(float(g), L)[0] for g in t.gains]
+        sc, scok = _scaled(float(model.score(X, Kgiven)) / scale, L)
+        gains = [_scaled(float(g) / scale, L)[0] for g in t.gains]
         events.append(dict(
             e="end", labels=[int(v) for v in model.labels_], leaves=[int(v) for v in model.leaves_],
             tree=dict(left=[int(v) for v in t.children_left], right=[int(v) for v in t.children_right],
@@ -179,7 +203,7 @@ def datasets(tier, rnd):
 
 def param_grid(n, d, tier, rnd, budget):
     grid = []
-    for kmax, md, mss, msl, mf, ml in itertools.product([1, 2, 3, 4], [None, 1, 2], [2, 3, 4, 5], [1, 2], [None] + list(range(1, d + 1)),
+    for kmax, md, mss, msl, mf, ml in itertools.product([1, 2, 3, 4], [None, 1, 2], [2, 3, 4, 5], [1, 2], [None] + list(range(1, d + 2)),
                                                          [None, 2, 3]):
         if 2 * msl > mss or msl > n:
             continue
@@ -200,27 +224,36 @@ def precomputed_kernels(n):
 
 
 def owner_of_rejection(dg):
-    """A rejected trace belongs to C08 when only the gain / best-candidate conjuncts fail at a step, else to C09."""
+    """Which properties a rejected trace is reported under: C08 when the gain / best-candidate conjuncts fail at a step, when
+    only the score fails at the end, or when the fit ended with a tree other than the one its recorded steps build (a found
+    positive-gain split not applied = fitting stopped early); C09 for every structural clause.  End-of-fit tree mismatches
+    belong to both."""
     d = dg.get("diag") or {}
     ev = dg.get("event") or {}
     if ev.get("e") == "step" and d.get("loopcond") and d.get("args") and d.get("admissible"):
-        return "C08"
+        return {"C08"}
     if ev.get("e") == "end" and d and all(d.get(k) for k in ("loopcond", "labels", "leaves", "tree", "routing")):
-        return "C08"          # only the score clause fails
-    return "C09"
+        return {"C08"}          # only the score clause fails
+    if ev.get("e") == "end" and d and d.get("tree") is False:
+        return {"C08", "C09"}
+    return {"C09"}
 
 
 def run_traces(rep, pid, tier, rnd, budget):
     """Record real Kauri.fit executions and validate them against KauriTrace; report what property `pid` owns."""
     groups, meta = collections.defaultdict(list), collections.defaultdict(list)
+    reuse = {}
     for (n, d), dsl in datasets(tier, rnd).items():
         for X in dsl:
             for params in param_grid(n, d, tier, rnd, budget):
                 for Kmat in precomputed_kernels(n):
                     for variant in ("compiled", "pyx"):
                         p = dict(params, random_state=rnd.randint(0, 3))
+                        scale = rnd.choice([1.0, 1.0, 1e-20, 2.0 ** 40])
                         try:
-                            ev, model = record_fit(p, X, Kmat=Kmat, variant=variant)
+                            # the same estimator object is re-parameterised and refitted all along (per execution variant)
+                            ev, model = record_fit(p, X, Kmat=Kmat, variant=variant, scale=scale, model=reuse.get(variant))
+                            reuse[variant] = model
                         except Exception as e:
                             if pid == "C09":
                                 rep.violation(f"Kauri(**{p}).fit raised {type(e).__name__}: {e} on X={X} kernel="
@@ -228,7 +261,7 @@ def run_traces(rep, pid, tier, rnd, budget):
                                               {"X": X, "params": p, "variant": variant}, tags=("raises", variant))
                             continue
                         groups[(n, d)].append(ev)
-                        meta[(n, d)].append(dict(X=X, params=p, kernel="linear" if Kmat is None else "precomputed-indefinite",
+                        meta[(n, d)].append(dict(X=X, params=p, kernel=("linear" if Kmat is None else "precomputed-indefinite") + f" x{scale:g}",
                                                  variant=variant, splits=len(ev[-1]["tree"]["left"]) // 2))
     devs = 0
     for (n, d), traces in groups.items():
@@ -253,7 +286,7 @@ def run_traces(rep, pid, tier, rnd, budget):
                 continue
             m = meta[(n, d)][tid - 1]
             dg = trace.diagnose("KauriTrace", traces, tid, constants=dict(N=n, D=d))
-            if owner_of_rejection(dg) != pid:
+            if pid not in owner_of_rejection(dg):
                 continue
             failing = [k for k, v in (dg["diag"] or {}).items() if v is False]
             rep.violation(f"real Kauri.fit execution is not a behaviour of KauriFit: {m}; stuck at event #{dg['l']} "
